@@ -414,6 +414,13 @@ def generate(tier, seed):
     yield "standardize", {"rows": WIT_ROWS, "cols": WIT_COLS, "options": {"suppress_warnings": False}, "index": "shifted"}, True
     yield "standardize", {"rows": WIT_ROWS, "cols": WIT_COLS, "options": {"tcr_precision": "allele"}, "index": "duplicated"}, True
     yield "standardize", {"rows": [list(reversed(r)) for r in WIT_ROWS], "cols": list(reversed(WIT_COLS)), "options": {}, "index": "permuted"}, True
+    # several spellings of one value within a column (case, surrounding blanks): every cell is standardised on its own
+    sp_rows = []
+    for (a3, b3, epi) in (("CAVRDSNYQLIW", "CASSF", "SIINFEKL"), ("cavrdsnyqliw", " CASSF", "siinfekl"), ("CAVRDSNYQLIW ", "cassf", "SIINFEKL "),
+                          (" CAVRDSNYQLIW", "CASSF ", "Siinfekl"), ("CAVRDSNYQLIW", "CASSF", "MART-1"), ("CAVRDSNYQLIW", "CASSF", "Mart-1")):
+        sp_rows.append(["TRAV1-2*01", a3, "TRAJ33*01", "TRBV6-1*01", b3, "TRBJ2-1*01", epi, "HLA-A*02", "B2M", len(sp_rows), "n"])
+    yield "standardize", {"rows": sp_rows, "cols": WIT_COLS, "options": {}}, True
+    yield "standardize", {"rows": list(reversed(sp_rows)), "cols": WIT_COLS, "options": {"strict_cdr3_standardization": True}, "index": "string"}, True
     mapper = {"foo": "TRBV", "bar": "CDR3B", "baz": "TRBJ"}
     rows3 = [[r[3], r[4], r[5], r[9]] for r in WIT_ROWS]
     yield "standardize", {"rows": rows3, "cols": ["foo", "bar", "baz", "count"], "options": {}, "col_mapper": mapper}, True
